@@ -142,3 +142,9 @@ Print Assumptions C10_conversion_never_panics.
 Theorem C10_converted_values_are_in_range : forall v n, (forall x, v <> GNode x) -> lit_any v = Ok n -> PolicyIpld.ints_in53 n = true.
 Proof. exact reflective_values_are_in_range. Qed.
 Print Assumptions C10_converted_values_are_in_range.
+
+(* the args engine judges what literal.Any returns with [denotesb]; it never refuses a node that denotes the value
+   (Go maps have distinct keys) *)
+Theorem C10_checker_accepts_every_exact_node : forall v n, gkeys_distinct v -> denotes v n -> denotesb (gsize v) v n = true.
+Proof. exact checker_accepts_every_exact_node. Qed.
+Print Assumptions C10_checker_accepts_every_exact_node.
